@@ -241,6 +241,13 @@ fn run<const D: usize>(case: &Case, log: &mut CaseLog) {
         before = w.snap();
     }
     let g = guarantee_of(w.dt.topology_guarantee());
+    // A reachable state that is itself structurally inconsistent (remove_vertex can leave such states,
+    // see the C06 findings) is not a round-trip case: the property's last sentence demands that a
+    // document which does not describe a consistent complex be rejected, so the two demands conflict.
+    if !check(&before, Opts::structural_only()).ok_upto(2) {
+        log.class("state_structurally_inconsistent(not a round-trip case)");
+        return;
+    }
     // 2. Tds<f64,i32,(),D> -> JSON -> Tds<f64,i32,i32,D>, plant cell data
     let text0 = match serde_json::to_string(w.dt.tds()) {
         Ok(t) => t,
